@@ -33,6 +33,7 @@ type faultPlan struct {
 	firedAt string
 	armed   bool
 	log     []string
+	getErr  error // what a failing Get answers instead of the harness's own error (e.g. ErrNotExist: the record "vanished")
 }
 
 func (p *faultPlan) hit(kind, detail string) bool {
@@ -152,6 +153,9 @@ func (s *SimStore) Get(ctx context.Context, p string) (keyvalue.FileRecord, erro
 	yield("store.Get " + p)
 	s.gets++
 	if s.plan.hit("Get", p) {
+		if s.plan.getErr != nil {
+			return nil, s.plan.getErr
+		}
 		return nil, errInjected
 	}
 	if err := ctx.Err(); err != nil && !s.ignoreCtx {
